@@ -1,0 +1,12 @@
+//go:build verif
+// +build verif
+
+package api
+
+import "github.com/massnetorg/mass-core/txscript"
+
+// VerifExtractAddressInfos exposes the API-side reading of an output script to the
+// verification harness (build tag verif only).
+func VerifExtractAddressInfos(pkScript []byte) (scriptClass txscript.ScriptClass, recipient, staking, binding string, reqSigs int, err error) {
+	return extractAddressInfos(pkScript)
+}
